@@ -26,6 +26,15 @@ def gen(rnd, n, prefix="g"):
                 calls.append({"api": "get_module_info", "slot": sl, "intent": {"slot": sl}})
             calls.append(c)
             script.append(s)
+        if i % 5 == 0:
+            # a service that may continue answers "partial transfer" (status 6) to a generic message that supplies a data type
+            c, s = S.generic_call(rnd, route, mode=rnd.choice(["connected", "connected", "ucmm"]),
+                                  script={"status": 6, "ext": [], "data": [rnd.getrandbits(8) for _ in range(rnd.choice([2, 4, 6]))]})
+            c["kwargs"]["service"] = c["intent"]["service"] = rnd.choice([0x03, 0x55, 0x52, 0x53, 0x0A])
+            c["kwargs"]["data_type"] = {"__dtype": d_int(2, 0)}
+            c["intent"]["dtype"] = d_int(2, 0)
+            calls.append(c)
+            script.append(s)
         calls.append({"api": "close"})
         policy = rnd.choice(["LargeOK", "LargeOK", "LargeRefused"])
         scs.append({"id": "%s%d" % (prefix, i), "family": "generic",
